@@ -786,6 +786,13 @@ Hnextread(int32 access_id, uint16 tag, uint16 ref, int origin)
             HGOTO_DONE(SUCCEED);
         } /* end if */
         else {
+            /* The special element cannot be opened (e.g. its coder is not available).  The caller
+             * still owns this access record and will end the access: keep it attached to the file
+             * and to the descriptor, as an ordinary element with no special state behind it. */
+            file_rec->attach++;
+            access_rec->special      = 0;
+            access_rec->special_info = NULL;
+            access_rec->posn         = 0;
             HGOTO_DONE(FAIL);
         } /* end if */
     }
